@@ -291,6 +291,15 @@ func init() {
 	gens["uuidv6"] = ver("6", "1", "5", "7", "0", "9", "f")
 	gens["uuidv7"] = ver("7", "1", "6", "8", "0", "9", "f")
 	gens["uuidp4"] = ver("4", "1", "3", "5", "0", "9", "a")
+	gens["uuidp6"] = ver("6", "1", "5", "7", "0", "9", "f")
+	gens["uuidp7"] = ver("7", "1", "6", "8", "0", "9", "f")
+	gens["macdot"] = &gen{
+		fixed:    []string{"00.1A.2B.3C.4D.5E", "00.1a.2b.3c.4d.5e", "ff.ff.ff.ff.ff.ff"},
+		near:     []string{"", "00:1A:2B:3C:4D:5E", "00.1A.2b.3C.4D.5E", "00.1A.2B.3C.4D", "00.1A:2B.3C.4D.5E", "00..1A.2B.3C.4D.5E", "00x1Ax2Bx3Cx4Dx5E", "001A.2B3C.4D5E"},
+		random:   func(r *hx.Rng) string { return randMAC(r, ".") },
+		alphabet: "0123456789abcdefABCDEF.",
+		seps:     ".",
+	}
 	g := *gens["uuid"]
 	g.near = append(append([]string{}, g.near...), "123e4567-e89b-f2d3-a456-426614174000", "123E4567-E89B-A2D3-A456-426614174000")
 	gens["guid"] = &g
